@@ -61,6 +61,20 @@ claim("C04", "guard-obligation catalogue located by operand roles in the SSA + c
       "Not decided: that CRC/SHA detect a particular corruption; size consistency inside the LZMA2 layer for check-less streams.",
       TRUST + "Catalogue frozen in ob_xz.go.", "DESIGN.md §4 C04, Appendix A")
 
+claim("C10", "who-may-call sets, dominance / must-pass-through and event-word rules on all paths of cmd/gxz; error-provenance dataflow",
+      "Decides on ALL paths of cmd/gxz (which has no tests): the file-system mutation sites are exactly a frozen set with an exclusive-create temp file; the input is "
+      "removed only under success && !keep; r.SetSuccess is dominated by w.Close()==nil . w.SetSuccess . io.Copy==nil; a successful writer.Close is Flush . f.Close . "
+      "Rename(tmp,target), every failing path removes the temp file; temp name = target + non-empty suffix; no overwrite without -f; target never equals the input; every "
+      "failure reaches a non-nil return and exit status 1. Since rename-dominates-remove holds on every path it holds at every kill point (static counterpart of the "
+      "crash-point quantifier). Not decided: kernel/file-system behaviour, fsync, cross-device rename, contents.",
+      TRUST + "fsMutators table (gxzrules.go).", "DESIGN.md §4 C10")
+
+claim("C15", "who-may-write / dataflow / dominance rules over cmd/gxz; finite-domain evaluation of the header sniffing predicate",
+      "Decides only the structurally visible clauses: per-file processing cannot change the shared options; keep = opts.keep || opts.stdout gates removal; -c reaches no "
+      "file creation; no overwrite without -f; target != input and exact suffix removal; permission bits = mode & subset of 0666 flow into OpenFile; every 2^n / 2^n+2^(n-1) "
+      "dictionary size passes .lzma sniffing; each file's failure reaches the exit status. Not decided: contents round trip, presets, interoperability, option parsing in gflag.",
+      TRUST, "DESIGN.md §4 C15")
+
 NOT_YET = "not yet decided: rules under construction (DESIGN.md §10); no claim is made"
 
 def main():
